@@ -89,4 +89,14 @@ def rule_strict_csv_reader(ctx):
 
 from .common import rule_module_state  # noqa: E402
 
-RULES = [rule_modes, rule_copies, rule_raw_reader_escapes, rule_csv_fault_conversion, rule_strict_csv_reader, rule_module_state]
+
+def rule_fixed_reader_reports_malformed_streams(ctx):
+    """O13.6 (shared with C13): the fixed-width reader is cutplace's own code; that a stream which is not a sequence of
+    full-width records is reported with DataFormatError - in particular a record cut short at the end of the data - is
+    C13's table and an obligation of C06's "broken data stops reading in every mode"."""
+    from .c13 import rule_fixed_rows
+
+    rule_fixed_rows(ctx)
+
+
+RULES = [rule_modes, rule_copies, rule_raw_reader_escapes, rule_csv_fault_conversion, rule_strict_csv_reader, rule_fixed_reader_reports_malformed_streams, rule_module_state]
